@@ -162,6 +162,8 @@ def values(o):
 def items(o):
     """python list of the elements of a list / tuple / set value"""
     if isinstance(o, PGenList):
+        if o.dead:
+            raise SpecError('a list that holds an unknown prefix of another list (the loop that filled it raised)')
         return GenItems(o)
     if isinstance(o, (PList, PSet)):
         return list(o.items)
@@ -239,9 +241,14 @@ def eq(a, b):
             return False
         return eq(a.d, b.d)
     if isinstance(a, PGenList) or isinstance(b, PGenList):
+        if isinstance(a, PGenList) and a.dead or isinstance(b, PGenList) and b.dead:
+            raise SpecError('a list that holds an unknown prefix of another list (the loop that filled it raised)')
         if isinstance(a, PGenList) and isinstance(b, PGenList) and a.core is b.core:
-            return True        # the same (immutable) list, or a snapshot of it
+            return True        # the same (immutable) list, a snapshot of it, or a list a completed loop copied it into
         other = b if isinstance(a, PGenList) else a
+        if isinstance(other, (PList, list)) and not isinstance(other, PGenList) and len(items(other)) == 0:
+            g = a if isinstance(a, PGenList) else b
+            return mk(g.n.t == 0, 'bool')
         if other is None or isinstance(other, (bool, int, float, str, PObj, PDict, PSet, dict, set)) or \
                 (is_sym(other) and kind_of(other) != 'U'):
             return False       # a list never equals a non-list
